@@ -149,6 +149,7 @@ def stepNewThread (s : State) (t : Nat) : Ev → Option State
   | .ldCnt v =>
     match s.npc t with
     | .jPoll => if v = s.cnt then some { s with npc := upd s.npc t (if v = 0 then .jSeen0 else .jPoll) } else none
+    | .idle => if v = s.cnt then some s else none      -- a poll outside the observed `join()`
     | _ => none
   | .joinEnd =>
     match s.npc t with
